@@ -1049,6 +1049,11 @@ func runCase(ctx context.Context, out *vc.Out, caseID int, seed uint64, tier str
 				w.run(&query{filter: fl, sel: "docs"})
 			}
 		}
+		// several aggregates over one group in one request
+		for i := 0; i < 3; i++ {
+			a := []int64{-5, 0, 1, 2}[r.Intn(4)]
+			w.groupedPair(a, a+[]int64{2, 5, 7, 200}[r.Intn(4)])
+		}
 		// aggregates over several sources
 		for _, sel := range []string{"sum2:score:v", "sum2:age:w", "sum2:age:v", "avg2:score:v", "avg2:age:w"} {
 			q := genQuery(r)
@@ -1057,6 +1062,80 @@ func runCase(ctx context.Context, out *vc.Out, caseID int, seed uint64, tier str
 			w.run(q)
 		}
 	}()
+}
+
+// groupedPair: several aggregates over the same group in ONE request, the later filters extending the earlier one
+// (aggregate targets with different filters must not share a source)
+func (w *world) groupedPair(a, b int64) {
+	q := fmt.Sprintf(`query { Doc(groupBy: [flag]) { flag wide: _count(_group: {filter: {age: {_gt: %d}}}) narrow: _count(_group: {filter: {age: {_gt: %d, _lt: %d}}}) named: _count(_group: {filter: {age: {_gt: %d}, name: {_ne: "a"}}}) total: _sum(_group: {field: age, filter: {age: {_gt: %d}}}) part: _sum(_group: {field: age, filter: {age: {_gt: %d, _lt: %d}}}) } }`, a, a, b, a, a, a, b)
+	render := func(r gqlRes) string {
+		if r.err != "" {
+			return strings.ReplaceAll(clipS(r.err, 100), " ", "_")
+		}
+		var rows []string
+		for _, g := range r.docs {
+			key := "n"
+			if v, ok := g["flag"].(bool); ok {
+				key = "b0"
+				if v {
+					key = "b1"
+				}
+			}
+			rows = append(rows, fmt.Sprintf("%s:%v:%v:%v:%v:%v", key, g["wide"], g["narrow"], g["named"], g["total"], g["part"]))
+		}
+		sort.Strings(rows)
+		return strings.Join(rows, ",")
+	}
+	got := render(exec(w.ctx, w.n, q))
+	line := w.out.Lines
+	w.out.Emit(fmt.Sprintf("g %d %d", a, b), got)
+	w.out.Count("sel:grouped-pair")
+	// the arithmetic over the documents, on the implementation's own listing
+	type acc struct{ wide, narrow, named, total, part int64 }
+	groups := map[string]*acc{}
+	for _, d := range w.docs {
+		if d.deleted {
+			continue
+		}
+		k := d.fields["flag"].tok()
+		if groups[k] == nil {
+			groups[k] = &acc{}
+		}
+		age := d.fields["age"]
+		if age.k == "n" || age.i <= a {
+			continue
+		}
+		g := groups[k]
+		g.wide++
+		g.total += age.i
+		if age.i < b {
+			g.narrow++
+			g.part += age.i
+		}
+		if nm := d.fields["name"]; nm.k == "n" || nm.s != "a" {
+			g.named++
+		}
+	}
+	var rows []string
+	for k, g := range groups {
+		rows = append(rows, fmt.Sprintf("%s:%d:%d:%d:%d:%d", k, g.wide, g.narrow, g.named, g.total, g.part))
+	}
+	sort.Strings(rows)
+	if want := strings.Join(rows, ","); want != got {
+		w.out.Oracle(line, fmt.Sprintf("[aggregate-wrong] case %d: %s returns %s; the arithmetic over the documents gives %s", w.caseID, q, got, want))
+	}
+	if w.twin != nil {
+		if tgot := render(exec(w.ctx, w.twin, q)); tgot != got {
+			w.out.Oracle(line, fmt.Sprintf("[index-changes-aggregate] case %d indexes {%s}: %s returns %s without indexes and %s with them", w.caseID, w.idxDesc, q, got, tgot))
+		}
+	}
+}
+
+func clipS(s string, n int) string {
+	if len(s) > n {
+		return s[:n]
+	}
+	return s
 }
 
 // operatorSweep: one filter per operator on field f
